@@ -1360,48 +1360,56 @@ package rtcp
 //@ func (b *LossRLEReportBlock) setupBlockHeader()
 //@   safety[C09]
 //@   modifies *b
+//@   recv any
 //@   ensures[C09,C16] header: b.XRHeader.BlockType == 1 && b.XRHeader.TypeSpecific == TypeSpecificField(b.T&0x0F)
 //@   ensures[C18] onlyheader: b.T == old(b.T) && b.SSRC == old(b.SSRC) && b.BeginSeq == old(b.BeginSeq) && b.EndSeq == old(b.EndSeq) && sameSlice(b.Chunks, old(b.Chunks))
 
 //@ func (b *LossRLEReportBlock) unpackBlockHeader()
 //@   safety[C01]
 //@   modifies *b
+//@   recv any
 //@   allocates[C01] 0
 //@   ensures[C04,C16] t: b.T == uint8(old(b.XRHeader.TypeSpecific))&0x0F
 
 //@ func (b *DuplicateRLEReportBlock) setupBlockHeader()
 //@   safety[C09]
 //@   modifies *b
+//@   recv any
 //@   ensures[C09,C16] header: b.XRHeader.BlockType == 2 && b.XRHeader.TypeSpecific == TypeSpecificField(b.T&0x0F)
 //@   ensures[C18] onlyheader: b.T == old(b.T) && b.SSRC == old(b.SSRC) && b.BeginSeq == old(b.BeginSeq) && b.EndSeq == old(b.EndSeq) && sameSlice(b.Chunks, old(b.Chunks))
 
 //@ func (b *DuplicateRLEReportBlock) unpackBlockHeader()
 //@   safety[C01]
 //@   modifies *b
+//@   recv any
 //@   allocates[C01] 0
 //@   ensures[C04,C16] t: b.T == uint8(old(b.XRHeader.TypeSpecific))&0x0F
 
 //@ func (b *PacketReceiptTimesReportBlock) setupBlockHeader()
 //@   safety[C09]
 //@   modifies *b
+//@   recv any
 //@   ensures[C09,C16] header: b.XRHeader.BlockType == 3 && b.XRHeader.TypeSpecific == TypeSpecificField(b.T&0x0F)
 //@   ensures[C18] onlyheader: b.T == old(b.T) && b.SSRC == old(b.SSRC) && b.BeginSeq == old(b.BeginSeq) && b.EndSeq == old(b.EndSeq) && sameSlice(b.ReceiptTime, old(b.ReceiptTime))
 
 //@ func (b *PacketReceiptTimesReportBlock) unpackBlockHeader()
 //@   safety[C01]
 //@   modifies *b
+//@   recv any
 //@   allocates[C01] 0
 //@   ensures[C04,C16] t: b.T == uint8(old(b.XRHeader.TypeSpecific))&0x0F
 
 //@ func (b *StatisticsSummaryReportBlock) setupBlockHeader()
 //@   safety[C09]
 //@   modifies *b
+//@   recv any
 //@   ensures[C09,C16] header: b.XRHeader.BlockType == 6 && b.XRHeader.TypeSpecific == specStatSummaryBits(b.LossReports, b.DuplicateReports, b.JitterReports, b.TTLorHopLimit)
 //@   ensures[C18] onlyheader: b.LossReports == old(b.LossReports) && b.DuplicateReports == old(b.DuplicateReports) && b.JitterReports == old(b.JitterReports) && b.TTLorHopLimit == old(b.TTLorHopLimit) && b.SSRC == old(b.SSRC) && b.LostPackets == old(b.LostPackets)
 
 //@ func (b *StatisticsSummaryReportBlock) unpackBlockHeader()
 //@   safety[C01]
 //@   modifies *b
+//@   recv any
 //@   allocates[C01] 0
 //@   ensures[C04,C16] bits: specStatSummaryBits(b.LossReports, b.DuplicateReports, b.JitterReports, b.TTLorHopLimit) == old(b.XRHeader.TypeSpecific)&0xF8
 
